@@ -202,6 +202,9 @@ def run(chk):
                 chk.known('C02-string-value-tail-order', desc | {'string_value': rn.string_value, 'spec': spec_sv})
             else:
                 chk.violation('impl-vs-spec', desc, {'string_value': rn.string_value, 'spec': spec_sv})
+        # the string value of a document node: its descendant text nodes only (top level comments / PIs do not count)
+        if isinstance(node, DocumentNode) and node.string_value != rn.string_value:
+            chk.violation('impl-vs-spec', desc, {'document string_value': node.string_value, 'root element string_value': rn.string_value})
         # parent/children consistency
         for n in node.iter():
             for c in (getattr(n, 'children', None) or []):
